@@ -50,3 +50,60 @@ Example ex_susc_exact (beta z : R) :
   exists o, susc_part_compute R Rops true false T0 ex_inp = WDone o /\
             susc_part_value R Rops o beta z = susc_part_spec R Rops Rinv T0 ex_inp beta z.
 Proof. exact (susc_part_exact_fixed R Rops Rinv Rops_ring Rops_div T0 T0_srel T0_scmp false ex_inp ex_part_wf beta z). Qed.
+
+(** * The hypotheses of gf_blocks_eq_full are satisfiable: one block of two levels, c and c^+ with two entries each *)
+From PV Require Import GFFullProofs.
+Definition exA : cs R := mkcs 2 [0; 1; 2]%nat [1; 0]%nat [2; 3].          (* C  = [[0, 2], [3, 0]] row-major *)
+Definition exB : cs R := mkcs 2 [0; 1; 2]%nat [1; 0]%nat [7; 5].          (* CX = [[0, 5], [7, 0]] column-major *)
+Definition exG : gf_in R :=
+  mkgf R [(0, 0)%nat] [(0, 0)%nat] (fun L => if Nat.eqb L 0 then Some exA else None) (fun L => if Nat.eqb L 0 then Some exB else None)
+       (fun _ => [0; 1]) (fun _ => [1 / 4; 1 / 8]) (fun _ => true).
+Definition exCf (L n Rb m : nat) : R := cs_get R Rops exA n m.
+Definition exCXf (Rb m L n : nat) : R := cs_get R Rops exB n m.
+Definition exDim (b : nat) : nat := 2%nat.
+
+Lemma lt2_cases (n : nat) : (n < 2)%nat -> n = 0%nat \/ n = 1%nat.
+Proof. intros H. destruct n as [|[|n]]; [left; reflexivity|right; reflexivity|]. exfalso. apply (Nat.nlt_0_r n). apply Nat.succ_lt_mono, Nat.succ_lt_mono. exact H. Qed.
+Lemma lt1_case (n : nat) : (n < 1)%nat -> n = 0%nat.
+Proof. intros H. destruct n as [|n]; [reflexivity|]. exfalso. apply (Nat.nlt_0_r n). apply Nat.succ_lt_mono. exact H. Qed.
+
+Example ex_blocks_sound : blocks_sound R Rops 1 exDim exG exCf exCXf.
+Proof.
+  constructor; cbn [g_cl g_cxr g_ret g_cpart g_cxpart g_E g_W exG].
+  - split; [intros y []|exact I].
+  - split; [intros y []|exact I].
+  - intros L Rb [H|[]]. injection H as <- <-. split; constructor.
+  - intros L Rb [H|[]]. injection H as <- <-. split; constructor.
+  - reflexivity.
+  - intros L Rb [H|[]]. injection H as <- <-. exists exA. cbn. repeat split; try (apply cs_wf_b_sound; vm_compute; reflexivity).
+  - intros L Rb [H|[]]. injection H as <- <-. exists exB. cbn. repeat split; try (apply cs_wf_b_sound; vm_compute; reflexivity).
+  - reflexivity.
+  - reflexivity.
+  - intros L Rb n m HL HR _ _. rewrite (lt1_case L HL), (lt1_case Rb HR). reflexivity.
+  - intros L Rb n m HL HR _ _. rewrite (lt1_case L HL), (lt1_case Rb HR). reflexivity.
+Qed.
+
+Example ex_assembled :
+  assembled R Rops 1 exDim exG exCf exCXf [0; 1] [1 / 4; 1 / 8] [[0; 2]; [3; 0]] [[0; 5]; [7; 0]].
+Proof.
+  constructor.
+  - reflexivity.
+  - intros i Hi. cbn in Hi. destruct (lt2_cases i Hi) as [-> | ->]; reflexivity.
+  - intros L Rb n m HL HR Hn Hm. rewrite (lt1_case L HL), (lt1_case Rb HR).
+    destruct (lt2_cases n Hn) as [-> | ->]; destruct (lt2_cases m Hm) as [-> | ->];
+      unfold exCf, cs_get, mget; cbn; lra.
+  - intros L Rb n m HL HR Hn Hm. rewrite (lt1_case L HL), (lt1_case Rb HR).
+    destruct (lt2_cases n Hn) as [-> | ->]; destruct (lt2_cases m Hm) as [-> | ->];
+      unfold exCXf, cs_get, mget; cbn; lra.
+  - intros b k Hb Hk. rewrite (lt1_case b Hb). destruct (lt2_cases k Hk) as [-> | ->]; reflexivity.
+  - intros b k Hb Hk. rewrite (lt1_case b Hb). destruct (lt2_cases k Hk) as [-> | ->]; reflexivity.
+Qed.
+
+(** the full theorem on this instance *)
+Example ex_blocks_eq_full (z : R) parts :
+  gf_compute R Rops true false T0 exG = WDone parts ->
+  gf_value R Rops parts z = gf R Rops [0; 1] [1 / 4; 1 / 8] [[0; 2]; [3; 0]] [[0; 5]; [7; 0]] z.
+Proof.
+  exact (gf_blocks_eq_full R Rops Rinv Rops_ring Rops_div T0 T0_rel T0_cmp 1 exDim exG exCf exCXf ex_blocks_sound
+           [0; 1] [1 / 4; 1 / 8] [[0; 2]; [3; 0]] [[0; 5]; [7; 0]] ex_assembled true false z parts).
+Qed.
